@@ -13,6 +13,10 @@
           `NS.updateClient_spec`, `NS.disconnect_spec`, `NS.generatePayload_ok`
   Part 3  the loops; `serverUpdate_total`, `serverSendPackets_total`, `serverDisconnectAll_total'`
   Part 4  traces: `runGlue_total`, executable checker `tpreb`
+
+  Not covered: an a-priori (state-independent) bound on `sendBudget` — the number of datagrams one `send_packets`
+  emits is what renet's `get_packets_to_send` returns on the current state; socket errors (`send_to`, `recv_from`) are
+  outside the model.
 -/
 import RenetVerif.Lemmas.GlueInv
 import RenetVerif.Lemmas.NcTablePP
